@@ -29,7 +29,7 @@
                RuntimeError propagates                 F_Failed
    `locked`:  with self._lock: ...                     F_InCS / FQ_Read / FQ_Unlock (as in RwLockCond.v)
 *)
-From Coq Require Import List Arith Bool ZArith.
+From Coq Require Import List Arith Bool ZArith Uint63.
 Import ListNotations.
 Require Import RV.Model.C11Base.
 Open Scope Z_scope.
@@ -196,7 +196,8 @@ Definition fobserve (s : fstate) : list Z :=
   let g := glob s in
   [Z.of_nat (k_sh g); Z.of_nat (k_ex g)]
   ++ concat (map (fun ps => [fzopt (p_mutex ps); p_readers ps; fzb (p_writer ps)]) (procs g)) ++ [-2]
-  ++ concat (map (fun '(i, th) => [fpc_code (f_pc th); fzb (fenabled s i); flval_code (f_seen th)])
+  ++ concat (map (fun '(i, th) => [fpc_code (f_pc th); fzb (fenabled s i);
+                                    match f_pc th with FQ_Unlock => 9 | _ => flval_code (f_seen th) end])
                  (combine (seq 0 (List.length (thr s))) (thr s))).
 
 Fixpoint ftrace (sched : list nat) (s : fstate) : list (list Z) :=
@@ -212,3 +213,7 @@ Definition fmk_cycle (x : Z) : fcycle := FCy (if Z.odd x then W else R) (Z.to_na
 Definition frun_case (c : list (nat * list Z) * list nat) : list (list Z) :=
   let s0 := finit (map (fun pp => (fst pp, map fmk_cycle (snd pp))) (fst c)) in
   fobserve s0 :: ftrace (snd c) s0.
+
+(* compact form used by the generated correspondence files: schedule and trace packed in 63-bit words *)
+Definition frun_case_z (c : list (nat * list Z) * (nat * list Uint63.int)) : list Uint63.int :=
+  map Uint63.of_Z (enc_trace (frun_case (fst c, decode_sched (fst (snd c)) (map Uint63.to_Z (snd (snd c)))))).
